@@ -224,7 +224,7 @@ func H_C11_Marshal() {
 			verifAssert2(err == nil, len(b) == 3, "native: a gogo message marshals through its generated method")
 		}
 	default:
-		verifAssert2(err == ErrMarshaler, b == nil, "an unsupported value yields the documented error, not a panic")
+		verifAssert2(errors.Is(err, ErrMarshaler), b == nil, "an unsupported value yields the documented error, not a panic")
 	}
 	verifReach("end")
 }
@@ -272,7 +272,7 @@ func H_C11_Unmarshal() {
 		}
 	case c11Gogo, c11TypedNilV2:
 	default:
-		verifAssert(err == ErrUnmarshaler, "an unsupported value yields the documented error, not a panic")
+		verifAssert(errors.Is(err, ErrUnmarshaler), "an unsupported value yields the documented error, not a panic")
 	}
 	verifReach("end")
 }
@@ -292,7 +292,7 @@ func H_C11_GrpcCodec() {
 		verifAssert(c.unmarshal == 1, "the gRPC codec unmarshals through csproto.Unmarshal")
 	}
 	if k == c11Nil || k == c11NonMsgPtr || k == c11NonPtr || k == c11CandText || k == c11CandLegacy {
-		verifAssert(err == ErrUnmarshaler, "unsupported values are errors")
+		verifAssert(errors.Is(err, ErrUnmarshaler), "unsupported values are errors")
 	}
 	verifReach("end")
 }
